@@ -580,6 +580,32 @@ impl Mode for RunMode {
                     }
                 }
             }
+            // TCP cases: every line precedes cmd:start, so the stores have all been applied before the guest runs; the guest writes
+            // only its own data area (H'FFC200-H'FFC4FF), ports and timers — every other stored plain cell must hold the last value sent
+            if why.is_empty() && tcp && dom && (outcome == "finished" || outcome == "stopped") {
+                let got: BTreeMap<u32, u8> = field(imp, "mem").unwrap_or("").split(',').filter_map(|e| {
+                    let (a, v) = e.split_once(':')?;
+                    Some((u32::from_str_radix(a, 16).ok()?, u8::from_str_radix(v, 16).ok()?))
+                }).collect();
+                let mut last: BTreeMap<u32, u8> = BTreeMap::new();
+                for e in field(&s, "stores").unwrap_or("").split(',').filter(|e| !e.is_empty()) {
+                    if let Some((a, v)) = e.split_once(':') {
+                        if let Ok(a) = u32::from_str_radix(a, 16) {
+                            let plain = (a <= 0xff) || (0x400000..=0x5fffff).contains(&a) || (0xffbf20..=0xffff1f).contains(&a);
+                            if plain && !(0xffc200..0xffc500).contains(&a) && !code.contains(&a) {
+                                last.insert(a, h(v) as u8);
+                            }
+                        }
+                    }
+                }
+                for (a, v) in &last {
+                    let g = got.get(a).copied().unwrap_or(0);
+                    if g != *v {
+                        why = format!("u8 line for {:x} sent over TCP before cmd:start: memory holds {:x}, the last value sent was {:x}", a, g, v);
+                        break;
+                    }
+                }
+            }
             // outgoing framing (TCP cases): the receiver recovers exactly the emitted messages, in order
             if why.is_empty() && tcp {
                 let wire = unhex(field(imp, "wire").unwrap_or(""));
